@@ -126,7 +126,7 @@ def run_case(case, ctx):
     # from exact cofactor / term-wise arithmetic: absolute tolerance scaled by the
     # magnitude a product of entries can reach
     atol = 0.0
-    if op.group == "linalg" and flat.size and flat.dtype.kind == "f":
+    if op.group == "linalg" and flat.size and (flat.dtype.kind == "f" or op.name == "det"):
         width = max(max(s) if s else 1 for s in shapes)
         atol = 1e-9 * (float(numpy.abs(flat).max()) + 1.0) ** (width if op.name == "det" else 2)
     text = compare(got, want, atol=atol)
